@@ -41,7 +41,7 @@ Theorem C19_skip_thm :
 Proof. exact C19_skip. Qed.
 Print Assumptions C19_skip_thm.
 
-(* a given/when step passes iff its documented effect on a plain interpreter is defined and then leaves exactly that interpreter state; the documented effect kind by kind (queue with parameters, clock advance, repeat n = n-fold, reproduce = the given/when steps of the named scenario without their tables), each followed by execute() *)
+(* a given/when step passes iff its documented effect on a plain interpreter is defined and then leaves exactly that interpreter state; the documented effect kind by kind (queue with parameters, clock advance, repeat n = n-fold, reproduce = the given/when steps of the named scenario with their tables), each followed by execute() *)
 Theorem C19_given_when_thm :
   forall (I : Type) (i_queue : event -> I -> I) (i_advance : Q -> I -> I)
            (i_execute : I -> I * option (list macrostep)),
@@ -76,7 +76,7 @@ Theorem C19_given_when_thm :
           match find_scenario nm feat with
           | Some steps =>
               match
-                seq_of I (plain_act I i_queue i_advance i_execute f feat) (map strip_tables (actions_of steps))
+                seq_of I (plain_act I i_queue i_advance i_execute f feat) (actions_of steps)
                   i
               with
               | Some (i1, m1) =>
